@@ -380,12 +380,101 @@ def rule_handmade_errors(ctx, rid="R6.6"):
     return r
 
 
+def _kind_test(e, name, kind):
+    """Three-valued truth of test expression e when local `name` holds a value of Python type `kind` ('int' | 'str')."""
+    if isinstance(e, ast.UnaryOp) and isinstance(e.op, ast.Not):
+        v = _kind_test(e.operand, name, kind)
+        return None if v is None else not v
+    if isinstance(e, ast.BoolOp):
+        vs = [_kind_test(x, name, kind) for x in e.values]
+        if isinstance(e.op, ast.And):
+            return False if any(v is False for v in vs) else (True if all(v is True for v in vs) else None)
+        return True if any(v is True for v in vs) else (False if all(v is False for v in vs) else None)
+    if isinstance(e, ast.Call) and isinstance(e.func, ast.Name) and e.func.id == "isinstance" and len(e.args) == 2 \
+            and isinstance(e.args[0], ast.Name) and e.args[0].id == name:
+        t = e.args[1]
+        names = [x.id for x in (t.elts if isinstance(t, ast.Tuple) else [t]) if isinstance(x, ast.Name)]
+        if len(names) != len(t.elts if isinstance(t, ast.Tuple) else [t]):
+            return None
+        sub = {"int": {"int", "object"}, "str": {"str", "object"}}[kind]
+        if any(x in sub for x in names):
+            return True
+        if all(x in ("int", "str", "float", "bool", "bytes", "list", "dict", "tuple") for x in names):
+            return False
+        return None
+    if isinstance(e, ast.Compare) and len(e.ops) == 1 and isinstance(e.ops[0], (ast.Is, ast.IsNot, ast.Eq, ast.NotEq)):
+        l, r = e.left, e.comparators[0]
+        for a, b in ((l, r), (r, l)):
+            if isinstance(a, ast.Call) and isinstance(a.func, ast.Name) and a.func.id == "type" and len(a.args) == 1 \
+                    and isinstance(a.args[0], ast.Name) and a.args[0].id == name and isinstance(b, ast.Name) and b.id in ("int", "str", "float", "bool"):
+                v = b.id == kind
+                return v if isinstance(e.ops[0], (ast.Is, ast.Eq)) else not v
+    return None
+
+
+def rule_json_path(ctx, rid="R6.7"):
+    """json_path must render an array index and a property name differently (0 and "0" are different addresses): under a
+    three-valued evaluation of the tests in the rendering loop, no rendering statement may be reachable both for an
+    integer and for a string element."""
+    prog = ctx.prog
+    r = ctx.rule(rid, "json_path walks absolute_path and never renders a property name by the statement that renders an array index", floor=1)
+    m = find_method(prog, "exceptions._Error", "json_path")
+    cfg = cfg_of(m)
+    s = m.params[0]
+    loops = [n for n in cfg.live if n.kind == "for"]
+    if len(loops) != 1 or not isinstance(loops[0].ast.target, ast.Name):
+        r.ok(site(m), "not a single for-loop over path elements: rendering not decided")
+        r.note(site(m), "json_path is not one loop over the path elements; the int/str rendering clause is not decided")
+        return r
+    loop = loops[0]
+    it = loop.ast.iter
+    src = norm(it)
+    local = {}
+    for n in walk_body(m):
+        if isinstance(n, ast.Assign) and len(n.targets) == 1 and isinstance(n.targets[0], ast.Name):
+            local.setdefault(n.targets[0].id, []).append(norm(n.value))
+    if isinstance(it, ast.Name) and len(local.get(it.id, [])) == 1:
+        src = local[it.id][0]
+    if "%s.absolute_path" % s not in src:
+        r.fail("%s|source|%s" % (m.qual, src[:40]), site(m, loop.ast), "json_path renders %s, not the absolute instance path" % src[:60])
+        return r
+    elem = loop.ast.target.id
+    reach = {}
+    for kind in ("int", "str"):
+        seen, todo, hit = set(), [y for (l, y) in loop.succ if l == "iter"], set()
+        while todo:
+            x = todo.pop()
+            if x.id in seen or x is loop:
+                continue
+            seen.add(x.id)
+            if x.kind in ("stmt", "yield") and any(isinstance(z, ast.Name) and z.id == elem for e in node_exprs(x) for z in walk_expr(e)):
+                hit.add(x.id)
+            v = _kind_test(x.ast, elem, kind) if x.kind == "test" else None
+            for (l, y) in x.succ:
+                if l in ("exc", "close"):
+                    continue
+                if x.kind == "test" and v is not None and l in ("true", "false") and (l == "true") != v:
+                    continue
+                todo.append(y)
+        reach[kind] = hit
+    both = reach["int"] & reach["str"]
+    if not reach["int"] or not reach["str"]:
+        r.fail("%s|no-rendering" % m.qual, site(m, loop.ast), "some path element kind is not rendered at all (int: %d statements, str: %d)" % (len(reach["int"]), len(reach["str"])))
+    elif both:
+        n = next(x for x in cfg.live if x.id in both)
+        r.fail("%s|index-and-name-share-rendering" % m.qual, site(m, n.ast),
+               "`%s` may render both an array index and a property name (e.g. 0 and \"0\"): json_path no longer tells the two addresses apart" % n.text[:60])
+    else:
+        r.ok(site(m, loop.ast), "int elements -> %d statement(s), str elements -> %d other statement(s)" % (len(reach["int"]), len(reach["str"])))
+    return r
+
+
 def run(ctx):
     ctx.explanation = (
         "C06 is checked where the bookkeeping is done: at each descend call site symbolic provenance terms (index/key of "
         "the loop that selected the part) are computed for the instance, subschema, path= and schema_path= arguments and "
         "compared (R6.1, R6.2); the dispatcher's stamping (R6.3), descend's prepending (R6.4), absolute = parent ++ relative "
-        "(R6.5) and the who-may-write rule for hand-made errors (R6.6). Not decided: json_path text, navigation on concrete data.")
+        "(R6.5) and the who-may-write rule for hand-made errors (R6.6). R6.7: json_path walks absolute_path and keeps index and name renderings apart. Not decided: navigation on concrete data.")
     ctx.assume("collections.deque.appendleft/extendleft semantics")
     rule_descend_paths(ctx)
     rule_dispatcher_stamp(ctx)
@@ -393,3 +482,8 @@ def run(ctx):
     rule_absolute_paths(ctx)
     rule_context_is_list(ctx)
     rule_handmade_errors(ctx)
+    rule_json_path(ctx)
+    # R14.*: "stepping through every $ref met on the way to the schema it designates": the designated schema is the one RFC 6901
+    # names, which is what the recorded subschema and keyword value are compared with
+    from . import c14
+    c14.run_rules(ctx)
